@@ -15,6 +15,8 @@ import GojaModel.C13.GatewayLemmas
 import GojaModel.C13.Cache2Lemmas
 import GojaModel.C13.GoSlice
 import GojaModel.C13.Refine
+import GojaModel.C13.Nested
+import GojaModel.C13.ExportToLemmas
 
 namespace GojaModel.C13
 
@@ -291,6 +293,36 @@ theorem exception_is_exact (sh : Shape) (h : Exception sh = true) : roundTrip sh
   | rOther d n => cases n <;> cases d <;> simp_all [Exception, roundTrip, toValueCase]
   | _ => simp_all [Exception, roundTrip, toValueCase]
 
+/-! ### nested wrappers (wrappers handed out by a wrapper, to any depth) follow / detach with their parent -/
+
+/-- NESTED WRAPPERS FOLLOW THEIR PARENT.  For every tree of handed-out wrappers (any width, any depth) and every new
+    location `a` — a private copy (detach), another slot (sort swap), the same slot of a re-allocated backing array —
+    after setReflectValue(a) every nested wrapper refers to the corresponding field of the NEW value
+    (`p.In.Deep…` at path σ ↦ address of field path σ inside `a`), and no wrapper is lost or invented. -/
+theorem nested_wrappers_follow_parent (fld : Nat → Nat → Nat) (t : WT) (a : Nat) (σ : List Nat) :
+    ((t.setRV fld a).sub σ).isSome = (t.sub σ).isSome ∧
+    (∀ k, (t.setRV fld a).sub σ = some k → k.loc = pathAddr fld a σ) :=
+  ⟨WT.setRV_sub_isSome fld σ t a, fun k h => WT.setRV_sub fld σ t a k h⟩
+
+/-- NESTED WRAPPERS DETACH WITH THEIR PARENT.  copyReflectValueWrapper copies the value to a fresh location `c`
+    (`mem'` holds at every field path of `c` what `mem` held at the same path of the old location) and re-points the
+    wrapper: every nested wrapper then reads exactly what the corresponding field of the OLD value held at detach
+    time — it is a reference into the copy, and stays one whatever is later written to the old slot. -/
+theorem nested_wrappers_detach_with_parent (fld : Nat → Nat → Nat) (t : WT) (c : Nat) (mem mem' : Nat → Int)
+    (hcopy : ∀ σ, mem' (pathAddr fld c σ) = mem (pathAddr fld t.loc σ)) (σ : List Nat) (k : WT)
+    (h : (t.setRV fld c).sub σ = some k) : mem' k.loc = mem (pathAddr fld t.loc σ) := by
+  rw [WT.setRV_sub fld σ t c k h]; exact hcopy σ
+
+/-- Regression record of the mechanism before a40b0ef (setReflectValue moved only the wrapper itself): the nested
+    wrapper keeps pointing into the old location. -/
+theorem nested_wrapper_shallow_prefix_witness :
+    let fld : Nat → Nat → Nat := fun a n => 100 * a + n + 1
+    let t : WT := .node 10 [(0, .node (fld 10 0) [])]
+    ((t.setRVShallow 20).sub [0]).map WT.loc = some (fld 10 0) ∧
+    ((t.setRV fld 20).sub [0]).map WT.loc = some (fld 20 0) := by
+  refine ⟨by decide, ?_⟩
+  simp [WT.setRV_node, WT.sub, WT.kids, lookupKid, WT.loc]
+
 /-! ### the call gateways -/
 
 /-- wrapReflectFunc, ALL arities / argument counts: the `in` slice handed to reflect.Value.Call is written only inside
@@ -331,6 +363,38 @@ theorem gateway_call_args_total (nargs : Nat) (variadic : Bool) (l : Nat) :
     · simp only [h1, hv, if_true]; omega
     · simp only [h1, hv, if_false]
       simp; omega
+
+/-- ARGUMENT CONVERSION inside the gateway: converting a script primitive into an integer parameter is total (never
+    an error), `undefined` / `null` give the zero value, booleans 0 / 1, an integer Number the Go conversion of its
+    int64 value (so every value of the parameter's own kind within ±2^53 arrives unchanged), NaN / ±Infinity / −0
+    give 0, a non-integral Number is truncated toward zero first. -/
+theorem gateway_arg_conversion (k : IntKind) :
+    (∀ v, (exportToInt k v).isSome) ∧
+    convArgInt k .undef = 0 ∧ convArgInt k .null = 0 ∧ convArgInt k (.bool true) = 1 ∧ convArgInt k (.bool false) = 0 ∧
+    (∀ i, convArgInt k (.num (.int i)) = wrapTo k i) ∧
+    (∀ i, k.InRange i → convArgInt k (.num (.int i)) = i) ∧
+    (∀ b, convArgInt k (.num (.flt (.frac b))) = wrapTo k (f64ToI64 (truncFrac b))) ∧
+    convArgInt k (.num (.flt .nan)) = 0 ∧ convArgInt k (.num (.flt .posInf)) = 0 ∧
+    convArgInt k (.num (.flt .negInf)) = 0 ∧ convArgInt k (.num (.flt .negZero)) = 0 := by
+  refine ⟨?_, rfl, rfl, rfl, rfl, fun i => rfl, fun i h => by simp [convArgInt, exportToInt, wrapTo_id h],
+    fun b => rfl, rfl, rfl, rfl, rfl⟩
+  intro v
+  cases v with
+  | int i => rfl
+  | flt f => cases f <;> rfl
+
+/-- …and the whole call: what the Go func receives at position i is the conversion, for the kind of the parameter that
+    position belongs to, of the script argument the documentation assigns to it (or 0 where it is missing). -/
+theorem gateway_call_values (kinds : List IntKind) (variadic : Bool) (args : List JArg) (i : Nat)
+    (hi : i < (gatewayIn kinds.length variadic args.length).len) :
+    (gatewayCall kinds variadic args)[i]? =
+      some (match specSlot kinds.length variadic args.length i with
+            | .arg j p _ => convArgInt (kinds.getD p .int) (args.getD j .undef)
+            | _ => 0) := by
+  have h := (gateway_call_args_total kinds.length variadic args.length).2.1 i hi
+  simp only [gatewayCall, List.getElem?_map, List.getElem?_range hi, Option.map]
+  rw [h.1]
+  cases specSlot kinds.length variadic args.length i <;> rfl
 
 /-- Results of a Go call as documented: nothing → undefined; a trailing non-nil `error` → exception; otherwise the
     error is dropped and one remaining value is returned as is, several as an Array ("if there are exactly two
@@ -486,6 +550,38 @@ theorem export_preserves_sharing_and_cycles (js : Nat → JFields) (N root fuel 
   have hok := exportRoot_ok js N root fuel hcl hr hf
   exact ⟨hok, export_preserves_sharing_and_cycles_of_ok js fuel root hok⟩
 
+/-- The export code of plain objects and arrays is the instance "no Map / Set" of the general model. -/
+theorem expValK_plain (js : Nat → JFields) : ∀ (fuel : Nat) (c : ECtx) (v : JVal),
+    expValK js (fun _ => false) fuel c v = expVal js fuel c v
+  | 0, c, v => by cases v <;> rfl
+  | fuel + 1, c, v => by
+    cases v with
+    | prim p => rfl
+    | hole => rfl
+    | ref id =>
+      have ih : expValK js (fun _ => false) fuel = expVal js fuel :=
+        funext fun c => funext fun v => expValK_plain js fuel c v
+      simp only [expValK, expVal, Bool.false_eq_true, if_false, ih]
+
+/-- FINDING (current code): Map and Set objects are exported without consulting the identity cache
+    (mapObject.export / setObject.export start with `make` + `ctx.put`), so a Map reached twice within one export comes
+    out as two different Go slices: `var m = new Map(); [m, m]`. -/
+theorem mapset_export_loses_sharing_witness :
+    let js : Nat → JFields := fun id => if id = 0 then [(0, .ref 1), (1, .ref 1)] else []
+    (expValK js (fun id => id == 1) 5 ECtx.empty (.ref 0)).1.out =
+      [(1, []), (2, []), (0, [(0, .addr 1), (1, .addr 2)])] := by
+  decide
+
+/-- FINDING (current code): a Map that contains itself (`m.set('self', m)`) makes the export recurse without end —
+    whatever the fuel, the model runs out of it (in Go: a fatal, unrecoverable stack overflow of the host). -/
+theorem cyclic_map_export_never_terminates_witness (fuel : Nat) (c : ECtx) :
+    (expValK (fun _ => [(0, .ref 0)]) (fun _ => true) fuel c (.ref 0)).1.ok = false := by
+  induction fuel generalizing c with
+  | zero => simp [expValK]
+  | succ f ih =>
+    simp only [expValK, if_true, expFields]
+    exact ih _
+
 /-- the cache is monotone during an export (a partial injective map that only grows): exporting a further value with
     the same ctx keeps every earlier object ↦ address binding. -/
 theorem export_cache_monotone (js : Nat → JFields) (fuel : Nat) (c : ECtx) (v : JVal) (a id : Nat)
@@ -544,6 +640,48 @@ theorem goslice_grow_no_clear_prefix_witness :
     let s : GS := { mem := fun i => if i < 3 then some (Int.ofNat i + 5) else none, cap := 3, len := 3 }
     (((s.step (.goTrunc 1)).growNoClear 3).mem 2 = some 7) ∧ (((s.step (.goTrunc 1)).grow 3).mem 2 = none) := by
   decide
+
+/-! ### ExportTo into typed destinations: one Go value per (script object, destination type) -/
+
+/-- EXPORTTO PRESERVES SHARING AND CYCLES PER DESTINATION TYPE.  For every script heap, every table of destination
+    types (struct pointers with interface{} and typed fields in any order, named maps, typed slices, recursive types),
+    every root and root type: within one ExportTo
+    (1) the cache (object, destination type) ↦ Go address is injective — the same object reached again through a
+        destination of the same type, in ANY order of untyped and typed visits, is the same Go value, different
+        objects or different destination types give different values;
+    (2) every Go value built is the image of its script object at its type: the declared fields the object has /
+        all properties / all elements, each converted for its own destination type and pointing at the cached value
+        of (child, that type);
+    (3) every allocated value is completed; (4) the result is the value cached for (root, root type). -/
+theorem exportTo_one_identity_per_object_and_type (js : Nat → JFields) (tys : Nat → TyDef) (asU : Nat → Nat → Bool)
+    (fuel root : Nat) (ty : Ty)
+    (hok : (expTo js tys asU fuel TCtx.empty (.ref root) ty).1.ok = true) :
+    let r := expTo js tys asU fuel TCtx.empty (.ref root) ty
+    (∀ (a b : Nat) (key : Nat × Nat), r.1.cache[a]? = some key → r.1.cache[b]? = some key → a = b) ∧
+    (∀ e ∈ r.1.out, OutGoodT js tys asU r.1.cache e) ∧
+    r.1.out.length = r.1.cache.length ∧
+    ImgT asU r.1.cache (.ref root) ty r.2 := by
+  intro r
+  obtain ⟨hext, himg⟩ := expTo_spec js tys asU fuel TCtx.empty (.ref root) ty
+  obtain ⟨osuf, hout, hgood⟩ := hext.outPre
+  have hnd : r.1.cache.Nodup := hext.nodup (by simp [TCtx.empty])
+  refine ⟨?_, ?_, ?_, himg hok⟩
+  · intro a b key ha hb
+    have hlt : a < r.1.cache.length := by
+      apply Classical.byContradiction
+      intro hn
+      have : r.1.cache[a]? = none := List.getElem?_eq_none (by omega)
+      rw [this] at ha; cases ha
+    exact (List.getElem?_inj hlt hnd).mp (ha.trans hb.symm)
+  · intro e he
+    have : e ∈ osuf := by
+      have h2 : r.1.out = osuf := by
+        have : r.1.out = TCtx.empty.out ++ osuf := hout
+        simpa [TCtx.empty] using this
+      rw [h2] at he; exact he
+    exact hgood hok e this
+  · have : r.1.out.length + TCtx.empty.cache.length = TCtx.empty.out.length + r.1.cache.length := hext.count
+    simpa [TCtx.empty] using this
 
 /-! ### the two-level identity cache (untyped entry + per-type items) of one ExportTo -/
 
